@@ -458,13 +458,37 @@ struct Runner {
     }
   }
 
+  // half of the sections that request a version do so right after the acquisition, i.e. before the guard is moved around: the request
+  // travels with the grant (C09: the version becomes exactly the value requested through SetVersion)
+  bool early_set_version(LS &L, XG &x, uint32_t acquired, const Op &op)
+  {
+    if constexpr (A::kOpt) {
+      if (op.c != 0 && ((op.a + op.b) & 1)) {
+        x.SetVersion(requested_version(L, acquired, op.c));
+        return true;
+      }
+    }
+    (void)L; (void)x; (void)acquired; (void)op;
+    return false;
+  }
+  void check_guard_version_after_moves(const XG &x, uint32_t acquired)
+  {
+    if constexpr (A::kOpt) {
+      if (x.GetVersion() != acquired) {
+        ORACLE("[C07][C09]", "xguard-version-after-move", " :: moved XGuard reports version %u, acquired with %u", x.GetVersion(), acquired);
+      }
+    } else {
+      (void)x; (void)acquired;
+    }
+  }
+
   // everything that has to happen right before the call that releases an X grant
-  void x_pre_release(LS &L, XG &x, uint32_t acquired, int64_t c)
+  void x_pre_release(LS &L, XG &x, uint32_t acquired, int64_t c, bool already_set = false)
   {
     uint32_t nv = acquired + 1U;
     if constexpr (A::kOpt) {
       nv = requested_version(L, acquired, c);
-      if (c != 0) x.SetVersion(nv);
+      if (c != 0 && !already_set) x.SetVersion(nv);
       if (nv < acquired && c >= 0) dsim::probe(pVersionWrap);
     }
     reg_end(L);
@@ -584,8 +608,10 @@ struct Runner {
       granted(L, ci, kX, 0, "LockX", true);
       expect_bool(g, true, "LockX-result");
       const uint32_t acquired = x_begin_version(L, g);
+      const bool early = early_set_version(L, g, acquired, op);
       Slots<XG> s;
       manipulate(L, g, s, static_cast<int>(op.b));
+      check_guard_version_after_moves(*s.cur, acquired);
       check_node_bound("X granted");
       read_payload_locked(L, 0, kX, false);
       write_payload(L, static_cast<int>(op.a));
@@ -595,7 +621,7 @@ struct Runner {
         dsim::op_end();
         expect_bool(none, false, "downgrade-of-moved-from");
       }
-      x_pre_release(L, *s.cur, acquired, op.c);
+      x_pre_release(L, *s.cur, acquired, op.c, early);
       if (op.b & kReleaseByAssign) {
         *s.cur = XG{};
         x_post_release(L);
@@ -643,13 +669,13 @@ struct Runner {
     }
     return x;
   }
-  SIXG downgrade(LS &L, XG &x, uint32_t acquired, int64_t c)
+  SIXG downgrade(LS &L, XG &x, uint32_t acquired, int64_t c, bool already_set = false)
   {
     const int me = dsim::self();
     uint32_t nv = acquired + 1U;
     if constexpr (A::kOpt) {
       nv = requested_version(L, acquired, c);
-      if (c != 0) x.SetVersion(nv);
+      if (c != 0 && !already_set) x.SetVersion(nv);
     }
     // the X part ends here; re-register as SIX *before* the call so that shared holders admitted mid-call are never flagged
     hb_end(L, kX);
@@ -708,10 +734,12 @@ struct Runner {
       granted(L, ci, kX, fConv, "LockX", true);
       expect_bool(g, true, "LockX-result");
       uint32_t acquired = x_begin_version(L, g);
+      const bool early = !then_up && early_set_version(L, g, acquired, op);
       Slots<XG> s;
       manipulate(L, g, s, static_cast<int>(op.b) & (kMoveCtor | kAssignEmpty | kAssignMovedFrom));
+      check_guard_version_after_moves(*s.cur, acquired);
       write_payload(L, static_cast<int>(op.a));
-      SIXG six = downgrade(L, *s.cur, acquired, then_up ? 0 : op.c);
+      SIXG six = downgrade(L, *s.cur, acquired, then_up ? 0 : op.c, early);
       check_version_quiescent(L, "DowngradeToSIX");
       check_node_bound("downgraded");
       const uint32_t seen = read_payload_locked(L, static_cast<int>(op.a), kSIX, true);
@@ -774,6 +802,7 @@ struct Runner {
       XG gb = B0.lock->LockX();
       granted(B0, cb, kX, fMoved, "LockX", true);
       const uint32_t acq_b = x_begin_version(B0, gb);
+      const bool early_b = early_set_version(B0, gb, acq_b, op);
       dsim::probe(pTwoGrants);
       write_payload(B0, static_cast<int>(op.a));
       // ga = move(gb): releases A exactly once, ga now owns B
@@ -790,7 +819,7 @@ struct Runner {
       }
       check_version_quiescent(A0, "move-assign over owning guard");
       write_payload(B0, 0);
-      x_pre_release(B0, ga, acq_b, op.c);
+      x_pre_release(B0, ga, acq_b, op.c, early_b);
     }
     x_post_release(B0);
     check_version_quiescent(B0, "release X");
@@ -1131,10 +1160,12 @@ struct Runner {
                 if (acquired != carried) {
                   ORACLE("[C03][C09]", "trylockx-guard-version", " :: TryLockX succeeded with version %u but the XGuard reports %u", carried, acquired);
                 }
+                const bool early = early_set_version(L, g, acquired, op);
                 Slots<XG> s;
                 manipulate(L, g, s, static_cast<int>(op.b));
+                check_guard_version_after_moves(*s.cur, acquired);
                 write_payload(L, 0);
-                x_pre_release(L, *s.cur, acquired, op.c);
+                x_pre_release(L, *s.cur, acquired, op.c, early);
               } else {
                 expect_bool(g, false, "failed-TryLockX-result");
                 dsim::op_begin("destroy empty guard", L.idx);
